@@ -5,7 +5,9 @@ use rust_decimal::Decimal;
 use std::collections::BTreeMap;
 use std::sync::OnceLock;
 
-pub const RATES_DIR: &str = "/repo/crates/cgt-money/resources/rates";
+pub fn rates_dir() -> String {
+    format!("{}/crates/cgt-money/resources/rates", crate::runner::repo_dir())
+}
 
 pub type Key = (String, i32, u32);
 
@@ -36,8 +38,8 @@ pub fn bundled() -> &'static BTreeMap<Key, Decimal> {
     static T: OnceLock<BTreeMap<Key, Decimal>> = OnceLock::new();
     T.get_or_init(|| {
         let mut m = BTreeMap::new();
-        let Ok(rd) = std::fs::read_dir(RATES_DIR) else {
-            crate::proc::inconclusive(&format!("cannot read {RATES_DIR}"));
+        let Ok(rd) = std::fs::read_dir(rates_dir()) else {
+            crate::proc::inconclusive(&format!("cannot read {}", rates_dir()));
         };
         for e in rd.flatten() {
             let name = e.file_name().to_string_lossy().to_string();
